@@ -12,9 +12,17 @@ any table satisfying only the index invariant, any files with any sizes, any cou
     phases (every path with a warning is infeasible);
   * C17.check.nofix_is_readonly: structural -- every mutating call of check() (UPDATE / DELETE /
     VACUUM statements, os.remove, os.rmdir) is dominated by `if fix:`;
-  * FanoutCache.check concatenates the per-shard results (C13).
-The two os.walk phases (unknown files, empty directories) are NOT under contract: they are covered by
-the bounded native stand-in (damage combinations incl. nested empty directories).
+  * FanoutCache.check concatenates the per-shard results (C13);
+  * the two os.walk phases, against the environment contract of os.walk stated in install_walk: for an
+    ARBITRARY walked directory the code compares set(join(dirpath, f) for f in files) with the set of
+    paths of all file-backed rows (`filenames`: every row-loop step adds its row's path), and for an
+    ARBITRARY element of the difference: only paths containing the database name are exempt, every
+    other one is reported once as UnknownFileWarning naming it and, with fix, exactly it is removed;
+    for an ARBITRARY directory of the second, bottom-up walk: it is listed unless it is the cache
+    directory, reported as EmptyDirWarning iff empty and, with fix, exactly it is removed.
+    That these per-element facts add up to "no unknown file and no empty directory is left" is an
+    induction over the walk that is argued on paper only; the second symbolic check() assumes it.
+    The bounded native stand-in (damage combinations at three depths) cross-checks the phases.
 """
 import ast
 import z3
@@ -67,9 +75,157 @@ def install(ctx, st_cache_holder):
         return SV('int', v)
     env.modules['os.path']['exists'] = EnvFunc('os.path.exists', exists)
     env.modules['os.path']['getsize'] = EnvFunc('os.path.getsize', getsize)
-    env.modules['os']['walk'] = EnvFunc('os.walk', lambda it, a, k: [])   # walk phases: not under contract
-    env.modules['os']['rmdir'] = EnvFunc('os.rmdir', lambda it, a, k: it.st.effect('RMDIR'))
-    env.modules['os']['listdir'] = EnvFunc('os.listdir', lambda it, a, k: [])
+    install_walk(ctx)
+
+
+# ------------------------------------------------------------------ the two os.walk phases
+# Environment contract of os.walk(top, topdown) (trusted, stdlib docs): a finite sequence of triples
+# (dirpath, dirnames, filenames) covering every directory below `top` once -- `top` itself included --
+# where filenames lists exactly the non-directory entries of dirpath; with topdown=False a directory
+# comes after all of its subdirectories.  The model hands out the i-th triple of the w-th walk through
+# uninterpreted functions; what the code does with an ARBITRARY triple, and with an ARBITRARY element of
+# set(paths) - filenames, is what the obligations are about.
+_S = z3.StringSort()
+WDIR = z3.Function('walk_dirpath', _I, _I, _S)
+WNF = z3.Function('walk_nfiles', _I, _I, _I)
+WFILE = z3.Function('walk_file', _I, _I, _I, _S)
+
+
+class SymSet(Obj):
+    """A set known by its membership predicate; `base` = the MappedSeq it was built from (set(list)),
+    `minus` = the set subtracted from it."""
+
+    def __init__(self, member, base=None, minus=None, tag='set'):
+        Obj.__init__(self, 'SymSet', {})
+        self.member, self.base, self.minus, self.tag = member, base, minus, tag
+
+
+def install_walk(ctx):
+    env = ctx.env
+    from contracts import fanout_common as fc
+    from pyvc.loops import MappedSeq
+    fc.install_seq_support(env)
+
+    def walk(it, a, k):
+        st = it.st
+        w = len([e for e in st.trace if e[0] == 'WALK'])
+        top = a[0]
+        topdown = k.get('topdown', a[1] if len(a) > 1 else True)
+        n = st.fresh('walk_len_%d' % w, _I)
+        st.assume(n >= 1)                    # at least `top` itself
+        st.effect('WALK', w=w, top=top, topdown=topdown, n=n)
+
+        def elem(i):
+            files = SymSeq(WNF(w, i), lambda j: SV('str', WFILE(w, i, j)), kind='list', tag='files')
+            files.walk_pos = (w, i)
+            return (SV('str', WDIR(w, i)), Opaque('other', st.fresh('dirnames', OTHER)), files)
+        seq = SymSeq(n, elem, tag='walk')
+        facts = [lambda i: WNF(w, i) >= 0]
+        if getattr(ctx, 'walk_post', False) and w == 0:
+            # state after the unknown-files phase of check(fix=True) (by its per-file obligations and the walk
+            # contract): every file below the directory is referenced by a row or is a database file
+            fs = filenames_set(it)
+            j = z3.Int('j_wpost')
+            path = lambda i, jj: z3.Concat(WDIR(w, i), z3.StringVal('/'), WFILE(w, i, jj))
+            facts.append(lambda i: z3.ForAll([j], z3.Implies(z3.And(j >= 0, j < WNF(w, i)),
+                                                             z3.Or(fs.member(path(i, j)), z3.Contains(path(i, j), z3.StringVal('cache.db'))))))
+        seq.elem_facts = lambda i: z3.And(*[f(i) for f in facts])
+        seq.walk_id = w
+        return seq
+    env.modules['os']['walk'] = EnvFunc('os.walk', walk)
+
+    def listdir(it, a, k):
+        # after the empty-directories phase of check(fix=True) no directory below the top is empty
+        empty = False if getattr(ctx, 'walk_post', False) else it.st.decide(2) == 0
+        it.st.effect('LISTDIR', path=a[0], empty=empty)
+        return [] if empty else ['entry']
+    env.modules['os']['listdir'] = EnvFunc('os.listdir', listdir)
+    env.modules['os']['rmdir'] = EnvFunc('os.rmdir', lambda it, a, k: it.st.effect('RMDIR', path=a[0]))
+    env.modules['os']['remove'] = EnvFunc('os.remove', lambda it, a, k: it.st.effect('OS_REMOVE', path=a[0]))
+    if not getattr(env, '_c17_sets', False):
+        env._c17_sets = True
+        old_call_type = env.call_type
+
+        def call_type(it, t, a, k):
+            if t.name == 'set' and a and isinstance(a[0], MappedSeq):
+                m = a[0]
+                j = z3.Int('j_setof')
+                val = term_of(m.value)
+                member = lambda p: z3.Exists([j], z3.And(j >= 0, j < m.seq.n, p == z3.substitute(val, (m.index, j))))
+                return SymSet(member, base=m, tag='set(paths)')
+            return old_call_type(it, t, a, k)
+        env.call_type = call_type
+        old_binop = env.binop
+
+        def binop(it, op, a, b, inplace=False):
+            if op == 'Sub' and isinstance(a, SymSet) and isinstance(b, SymSet):
+                return SymSet(lambda p: z3.And(a.member(p), z3.Not(b.member(p))), base=a.base, minus=b, tag='difference')
+            return old_binop(it, op, a, b, inplace)
+        env.binop = binop
+
+        def set_add(it, o, a, k):
+            # filenames.add(path): the set is known by its final membership predicate (every selected row's
+            # path); what is added must satisfy it -- and every iteration adds its own row's path (below)
+            it.st.effect('SET_ADD', target=o, value=a[0])
+            v = a[0]
+            if isinstance(v, str):
+                v = SV('str', z3.StringVal(v))
+            goal = o.member(v.t) if isinstance(v, SV) and v.ty == 'str' else z3.BoolVal(False)   # not even a path string
+            it.st.check('C17.check.filenames.add_is_a_row_path', 'post', goal)
+            return None
+        env.obj_methods['SymSet'] = {'add': set_add}
+
+
+class ErrorSetLoop(LoopSpec):
+    """`for full_path in error` where error = set(paths) - filenames: an arbitrary element is the path at
+    some position of `paths` that is not a member of `filenames`."""
+
+    def run(self, it, s, fr, iterable):
+        st = it.st
+        if not (isinstance(iterable, SymSet) and iterable.base is not None):
+            raise Unsupported('loop contract %s expects set(<list>) - <set>, got %r' % (self.name, iterable))
+        m, minus = iterable.base, iterable.minus
+        if minus is None:
+            minus = SymSet(lambda p_: z3.BoolVal(False), tag='nothing subtracted')
+        n = st.fresh('error_len', _I)
+        sel = st.fresh('error_sel', SM.A_II)
+        st.assume(n >= 0)
+        val = term_of(m.value)
+
+        def elem(jj):
+            return SV('str', z3.substitute(val, (m.index, z3.Select(sel, jj))))
+        seq = SymSeq(n, elem, tag='error')
+        seq.elem_facts = lambda jj: z3.And(z3.Select(sel, jj) >= 0, z3.Select(sel, jj) < m.seq.n,
+                                           z3.Not(minus.member(term_of(elem(jj)))))
+        st.effect('ERRORSET', base=m, minus=minus, sel=sel)
+        return LoopSpec.run(self, it, s, fr, seq)
+
+
+def install_walk_loops(ctx):
+    TRUE = lambda it, fr, i: z3.BoolVal(True)
+
+    def mark(kind):
+        def on_bind(it, fr, i):
+            it.st.effect('ITER', loop=kind, i=i, full_path=fr.locals.get('full_path'), dirpath=fr.locals.get('dirpath'),
+                         files=fr.locals.get('files'))
+        return on_bind
+    q = 'diskcache.core.Cache.check'
+    ctx.loop_invariants[(q, 2)] = LoopSpec('C17.check.unknown_files.walk', TRUE, on_bind=mark('walk-files'))
+    ctx.loop_invariants[(q, 3)] = ErrorSetLoop('C17.check.unknown_files.each', TRUE, on_bind=mark('error'))
+    ctx.loop_invariants[(q, 4)] = LoopSpec('C17.check.empty_dirs.walk', TRUE, on_bind=mark('walk-dirs'))
+
+
+def filenames_set(it):
+    """The set `filenames` after (and during) the rows loop: the full paths of all selected rows."""
+    st = it.st
+    w0 = c03.world0(st)
+    d = st.ghost['self'].fields['_directory'].t
+    q = z3.Int('q_fn')
+
+    def member(p):
+        return z3.Exists([q], z3.And(z3.Select(w0['T.live'], q), z3.Not(z3.Select(w0['T.filename?'], q)),
+                                     p == z3.Concat(d, z3.StringVal('/'), z3.Select(w0['T.filename'], q))))
+    return SymSet(member, tag='filenames')
 
 
 def processed(rows, i, q):
@@ -109,6 +265,8 @@ def install_loop(ctx):
 
     def on_havoc(it, fr):
         it.st.ghost['inv_arrays'] = None
+        if 'filenames' in fr.locals:
+            fr.locals['filenames'] = filenames_set(it)
     shapes = {'full_path': lambda st: None, 'real_size': lambda st: None, 'message': lambda st: None, 'args': lambda st: None,
               'rowid': lambda st: None, 'size': lambda st: None, 'filename': lambda st: None}
     ctx.loop_invariants[('diskcache.core.Cache.check', 1)] = LoopSpec(
@@ -120,6 +278,7 @@ def run_check(fix, pre=None):
     ctx = cctx()
     install(ctx, None)
     install_loop(ctx)
+    install_walk_loops(ctx)
     old_all = ctx.sql.select_all
 
     def select_all(it, T, ps, params):
@@ -182,6 +341,116 @@ def run_check(fix, pre=None):
         ctx.sql.select_all = old_all
 
 
+def _strterm(v):
+    if isinstance(v, str):
+        return z3.StringVal(v)
+    return term_of(v)
+
+
+def walk_obligations(base, p, fix):
+    """Obligations of the unknown-files and empty-directories phases on one path (see install_walk)."""
+    out = []
+    st = p.state
+    tr = st.trace
+    fn = 'Cache.check'
+    d = st.ghost['self'].fields['_directory']
+
+    def RR(name, ok, detail=None):
+        out.append(Result('%s.%s' % (base, name), 'trace', 'proved' if ok else 'refuted', ms=0, backend='engine', function=fn,
+                          path=p.decisions, detail=None if ok else detail))
+
+    def D(name, goal):
+        out.append(discharge('%s.%s' % (base, name), 'post', p.pc, goal, function=fn, path=p.decisions))
+    walks = [e[1] for e in tr if e[0] == 'WALK']
+    for wk in walks:
+        top_ok = wk['top'] is d or (isinstance(wk['top'], SV) and wk['top'].t.eq(d.t))
+        if wk['w'] == 0:
+            RR('unknown_files.walks_the_cache_directory', top_ok and wk['topdown'] in (True, False), 'os.walk(%r, topdown=%r)' % (wk['top'], wk['topdown']))
+        elif wk['w'] == 1:
+            RR('empty_dirs.walks_bottom_up', top_ok and wk['topdown'] is False,
+               'os.walk(%r, topdown=%r): a directory that only held empty directories must be visited after them' % (wk['top'], wk['topdown']))
+        else:
+            RR('walks.exactly_two', False, 'a third os.walk')
+    if not fix:
+        muts = [e[0] for e in tr if e[0] in ('OS_REMOVE', 'RMDIR')]
+        RR('walk_phases.nofix_removes_nothing', not muts, 'without fix: %r' % muts)
+    its = [(k, e[1]) for k, e in enumerate(tr) if e[0] == 'ITER']
+    if not its or p.kind != 'cut':
+        return out
+    k_last, last = its[-1]
+    after = tr[k_last:]
+    warns = [e[1] for e in after if e[0] == 'WARN']
+    removes = [e[1] for e in after if e[0] == 'OS_REMOVE']
+    rmdirs = [e[1] for e in after if e[0] == 'RMDIR']
+
+    def errorset_ok(outer):
+        # the inner loop of THIS triple runs over set(join(dirpath, f) for f in files) - filenames
+        k_outer, o = outer
+        es = [e[1] for e in tr[k_outer:] if e[0] == 'ERRORSET']
+        if len(es) != 1:
+            RR('unknown_files.every_directory_is_examined', False,
+               'the files of a walked directory are not compared with the referenced files (%d set differences in this step)' % len(es))
+            return
+        m, minus = es[0]['base'], es[0]['minus']
+        i = o['i']
+        ok = getattr(m.seq, 'walk_pos', None) is not None and m.seq.walk_pos[0] == 0 and getattr(minus, 'tag', '') == 'filenames'
+        RR('unknown_files.every_directory_is_examined', ok, 'paths built from %r, subtracting %r' % (getattr(m.seq, 'tag', m.seq), getattr(minus, 'tag', minus)))
+        if ok:
+            D('unknown_files.paths_are_dirpath_joined_with_each_file',
+              z3.And(m.seq.walk_pos[1] == i, term_of(m.value) == z3.Concat(WDIR(0, i), z3.StringVal('/'), WFILE(0, i, m.index))))
+    if last['loop'] == 'error':
+        outer = [x for x in its if x[1]['loop'] == 'walk-files'][-1]
+        errorset_ok(outer)
+        x = term_of(last['full_path'])
+        is_db = z3.Contains(x, z3.StringVal('cache.db'))
+        if not warns and not removes:
+            D('unknown_files.only_database_files_are_exempt', is_db)
+        else:
+            okw = len(warns) == 1 and getattr(warns[0]['category'], 'name', warns[0]['category']) == 'UnknownFileWarning'
+            RR('unknown_files.reported_once_as_unknown', okw, 'warnings %r' % [(w_['message'], w_['category']) for w_ in warns])
+            if okw:
+                D('unknown_files.report_names_the_file', z3.And(z3.Not(is_db), _strterm(warns[0]['message']) == z3.Concat(z3.StringVal('unknown file: '), x)))
+            if fix:
+                okr = len(removes) == 1
+                RR('unknown_files.fix_removes_it', okr, '%d removals' % len(removes))
+                if okr:
+                    D('unknown_files.fix_removes_exactly_it', term_of(removes[0]['path']) == x)
+            else:
+                RR('unknown_files.nofix_keeps_it', not removes, 'removed without fix')
+        RR('unknown_files.no_directory_removed', not rmdirs, 'rmdir in the unknown-files phase')
+    elif last['loop'] == 'walk-files':
+        errorset_ok((k_last, last))
+        RR('unknown_files.nothing_outside_the_inner_loop', not warns and not removes and not rmdirs, 'effects %r' % [e[0] for e in after])
+    elif last['loop'] == 'walk-dirs':
+        dp = term_of(last['dirpath'])
+        lds = [e[1] for e in after if e[0] == 'LISTDIR']
+        is_top = dp == d.t
+        if not lds:
+            RR('empty_dirs.unlisted_directory_untouched', not warns and not rmdirs, 'effects without listing the directory')
+            D('empty_dirs.only_the_cache_directory_is_skipped', is_top)
+        else:
+            okl = len(lds) == 1
+            RR('empty_dirs.listed_once', okl, '%d listings' % len(lds))
+            if okl:
+                D('empty_dirs.lists_the_walked_directory', z3.And(term_of(lds[0]['path']) == dp, z3.Not(is_top)))
+                if lds[0]['empty']:
+                    okw = len(warns) == 1 and getattr(warns[0]['category'], 'name', warns[0]['category']) == 'EmptyDirWarning'
+                    RR('empty_dirs.empty_directory_reported', okw, 'warnings %r' % [(w_['message'], w_['category']) for w_ in warns])
+                    if okw:
+                        D('empty_dirs.report_names_the_directory', _strterm(warns[0]['message']) == z3.Concat(z3.StringVal('empty directory: '), dp))
+                    if fix:
+                        okr = len(rmdirs) == 1
+                        RR('empty_dirs.fix_removes_it', okr, '%d rmdir calls' % len(rmdirs))
+                        if okr:
+                            D('empty_dirs.fix_removes_exactly_it', term_of(rmdirs[0]['path']) == dp)
+                    else:
+                        RR('empty_dirs.nofix_keeps_it', not rmdirs, 'rmdir without fix')
+                else:
+                    RR('empty_dirs.non_empty_directory_untouched', not warns and not rmdirs, 'effects %r on a non-empty directory' % [e[0] for e in after])
+        RR('empty_dirs.no_file_removed', not removes, 'os.remove in the empty-directories phase')
+    return out
+
+
 def post_state(w):
     q = z3.Int('q_post17')
     fn = z3.Select(w['T.filename'], q)
@@ -201,6 +470,7 @@ def check_task(fix):
         fn = 'Cache.check'
         for o in st.obligations:
             out.append(discharge('%s/%s' % (base, o.name), o.kind, o.pc, o.goal, function=fn, path=p.decisions))
+        out += walk_obligations(base, p, fix)
         if p.kind == 'cut':
             continue
         if p.kind != 'return':
@@ -237,7 +507,12 @@ def second_check_clean():
 
     def pre(w):
         return z3.And(*[g for _, g in post_state(w)])
-    paths = run_check(False, pre=pre)
+    ctx = cctx()
+    ctx.walk_post = True
+    try:
+        paths = run_check(False, pre=pre)
+    finally:
+        ctx.walk_post = False
     for n, p in enumerate(paths):
         warns = [e[1] for e in p.state.trace if e[0] == 'WARN']
         base = 'C17.check.second_check_clean#%d' % n
@@ -322,9 +597,12 @@ def post_process(results, tier):
 
 
 def meta(results, tier):
-    return {'functions': {'verified_bodies': ['diskcache.core.Cache.check (rows-versus-files, count and size phases)', 'diskcache.fanout.FanoutCache.check'],
-                          'assumed_contracts': ['Cache.reset', 'os.path.exists / getsize as the ghost file map'],
-                          'not_under_contract': ['the two os.walk phases of Cache.check (unknown files, empty directories): bounded stand-in only']},
-            'assumptions': ['arbitrary damage = any table with a consistent unique index, any files, any counters; a corrupted database file is outside',
+    return {'functions': {'verified_bodies': ['diskcache.core.Cache.check (all five phases)', 'diskcache.fanout.FanoutCache.check'],
+                          'assumed_contracts': ['Cache.reset', 'os.path.exists / getsize as the ghost file map',
+                                                'os.walk / os.listdir (environment contract in contracts/c17.py install_walk)',
+                                                'set(list) and set difference as membership predicates']},
+            'assumptions': ['walk phases: per-directory and per-file obligations are discharged; their sum over the whole walk (nothing unknown or '
+                            'empty is left) is a paper induction, assumed by second_check_clean',
+                            'arbitrary damage = any table with a consistent unique index, any files, any counters; a corrupted database file is outside',
                             'PRAGMA integrity_check returns ok', 'finite-sum arithmetic for SUM(size)'],
             'explanation': 'check() executed with an inductive invariant over the fetched file-backed rows; post-state feeds a second symbolic check'}
